@@ -689,7 +689,7 @@ FINDINGS = {
                     "handler panics too (hook never answers, nothing is recorded any more)"},
     "S18": {"props": ("C14",), "site": "watchtower-plugin/src/wt_client.rs::set_tower_status (callers: Retrier::start, on_commitment_revocation)",
             "scenario": "status-of-misbehaving-tower-overwritten",
-            "explains": {"dev:S18", "Misbehaving", "BadSig", "BadSig.request_to_misbehaving_tower"},
+            "explains": {"dev:S18", "BadSig", "BadSig.request_to_misbehaving_tower"},
             "what": "a retrier is started (or goes on) for a tower that has been flagged misbehaving meanwhile - a handler "
                     "that read the status earlier queued data for it: the appointment is sent to the tower although its "
                     "misbehaviour proof is stored (the status itself is no longer overwritten since 0773eb6)"},
